@@ -33,6 +33,8 @@
            reps     representativeBlocks (sorted by key) with avgNucTemperatures, as exact values; unrep: _unrepresentedXSIDs
            grp/genv the block collections of the last grouping and the environment numbers it was made with (observation)
            err/act  outcome and label of the last action (observation)
+           hist     the actions that led here, starting with the initial values (hidden by the VIEW; the emission config
+                    prints it with every explored edge, so that each edge is a complete behaviour for the real code)
 
    Interpretation choices
    * "never changes the blocks of the core": the manager-level call is specified to refresh envGroupNum/envGroup
@@ -54,8 +56,8 @@ CONSTANTS Scenarios,       \* names
           TempNuc,         \* xsTempIsotope as a nuclide index ("U238" = 2)
           MaxLevel
 
-VARIABLES scn, blk, env, enabled, reps, unrep, grp, genv, err, act
-vars == <<scn, blk, env, enabled, reps, unrep, grp, genv, err, act>>
+VARIABLES scn, blk, env, enabled, reps, unrep, grp, genv, err, act, hist
+vars == <<scn, blk, env, enabled, reps, unrep, grp, genv, err, act, hist>>
 
 S      == ScnOf(scn)
 N      == Len(S.xs)
@@ -70,7 +72,7 @@ FirstLeq(x, bounds) == LET ok == {g \in 1..Len(bounds) : RLeq(x, RInt(bounds[g])
 BuGroup(b)   == FirstLeq(RInt(b.bu), S.bub)
 TempGroup(b) == IF Len(S.tb) = 0 THEN 0 ELSE FirstLeq(NucTemp(<<b>>, "Average", TempNuc), S.tb)
 EnvOf(b)     == TempGroup(b) * NumBu + BuGroup(b)
-Refresh      == IF enabled /\ ~Single THEN [i \in 1..N |-> EnvOf(blk[i])] ELSE env
+Refresh      == IF enabled /\ ~Single THEN Concrete([i \in 1..N |-> EnvOf(blk[i])]) ELSE env
 
 (* ---------- keys, groups, settings ---------- *)
 \* a key is a pair of alphabet indices: (type letter, environment letter) or the two letters of the type
@@ -86,10 +88,10 @@ OptFor(id) ==
        ELSE (CHOOSE c \in lower : \A d \in lower : c.id[2] <= d.id[2]).opt
 GroupSeq(e) ==
     LET order == SetToSortSeq({IdOf(i, e) : i \in 1..N}, IdLess)
-    IN [g \in Idx(order) |-> [id  |-> order[g],
-                              mem |-> SelectSeq([i \in 1..N |-> i], LAMBDA i : IdOf(i, e) = order[g]),
-                              opt |-> OptFor(order[g])]]
-MembersOf(G) == [j \in Idx(G.mem) |-> blk[G.mem[j]]]
+    IN Concrete([g \in Idx(order) |-> [id  |-> order[g],
+                                       mem |-> SelectSeq([i \in 1..N |-> i], LAMBDA i : IdOf(i, e) = order[g]),
+                                       opt |-> OptFor(order[g])]])
+MembersOf(G) == Concrete([j \in Idx(G.mem) |-> blk[G.mem[j]]])
 
 (* ---------- actions ---------- *)
 SeqProduct(sets) == FoldLeft(LAMBDA acc, X : {Append(a, x) : a \in acc, x \in X}, {<<>>}, sets)
@@ -101,37 +103,45 @@ Init == /\ scn \in Scenarios
         /\ enabled = TRUE /\ reps = <<>> /\ unrep = <<>> /\ grp = <<>>
         /\ genv = [i \in 1..Len(ScnOf(scn).xs) |-> 0]
         /\ err = "" /\ act = [n |-> "Init"]
+        /\ hist = <<[n |-> "Init", dyn |-> [i \in 1..Len(ScnOf(scn).xs) |-> <<blk[i].bu, blk[i].t[1], blk[i].w>>]]>>
 
+Log   == hist' = Append(hist, act')
 Frame == UNCHANGED <<scn, env, enabled, reps, unrep, grp, genv>>
-BurnTo(i, v) == blk[i].bu # v /\ blk' = [blk EXCEPT ![i].bu = v] /\ Frame /\ err' = "" /\ act' = [n |-> "Burn", i |-> i, v |-> v]
-HeatTo(i, v) == blk[i].t[1] # v /\ blk' = [blk EXCEPT ![i].t[1] = v] /\ Frame /\ err' = "" /\ act' = [n |-> "Heat", i |-> i, v |-> v]
-FluxTo(i, v) == blk[i].w # v /\ blk' = [blk EXCEPT ![i].w = v] /\ Frame /\ err' = "" /\ act' = [n |-> "Flux", i |-> i, v |-> v]
-Disable == enabled' = FALSE /\ UNCHANGED <<scn, blk, env, reps, unrep, grp, genv>> /\ err' = "" /\ act' = [n |-> "Disable"]
-Enable  == enabled' = TRUE /\ UNCHANGED <<scn, blk, env, reps, unrep, grp, genv>> /\ err' = "" /\ act' = [n |-> "Enable"]
+BurnTo(i, v) == blk[i].bu # v /\ blk' = [blk EXCEPT ![i].bu = v] /\ Frame /\ err' = "" /\ act' = [n |-> "Burn", i |-> i, v |-> v] /\ Log
+HeatTo(i, v) == blk[i].t[1] # v /\ blk' = [blk EXCEPT ![i].t[1] = v] /\ Frame /\ err' = "" /\ act' = [n |-> "Heat", i |-> i, v |-> v] /\ Log
+FluxTo(i, v) == blk[i].w # v /\ blk' = [blk EXCEPT ![i].w = v] /\ Frame /\ err' = "" /\ act' = [n |-> "Flux", i |-> i, v |-> v] /\ Log
+Disable == enabled' = FALSE /\ UNCHANGED <<scn, blk, env, reps, unrep, grp, genv>> /\ err' = "" /\ act' = [n |-> "Disable"] /\ Log
+Enable  == enabled' = TRUE /\ UNCHANGED <<scn, blk, env, reps, unrep, grp, genv>> /\ err' = "" /\ act' = [n |-> "Enable"] /\ Log
 
+\* (the results are computed by state-level operators and bound once with \E: TLC does not cache LET definitions that
+\*  sit directly in an action)
 MakeGroups ==
-    LET e1 == Refresh
-    IN /\ env' = e1 /\ genv' = e1 /\ grp' = GroupSeq(e1)
-       /\ UNCHANGED <<scn, blk, enabled, reps, unrep>> /\ err' = "" /\ act' = [n |-> "Make"]
+    \E e1 \in {Refresh} :
+       /\ env' = e1 /\ genv' = e1 /\ grp' = GroupSeq(e1)
+       /\ UNCHANGED <<scn, blk, enabled, reps, unrep>> /\ err' = "" /\ act' = [n |-> "Make"] /\ Log
 
-CreateReps ==
+CreateResult ==
     LET e1   == Refresh
         gs   == GroupSeq(e1)
-        Rs   == [g \in Idx(gs) |-> RepOf(MembersOf(gs[g]), gs[g].opt)]
+        Rs   == Concrete([g \in Idx(gs) |-> RepOf(MembersOf(gs[g]), gs[g].opt)])
         okg  == SelectSeq([g \in Idx(gs) |-> g], LAMBDA g : Rs[g].out = "ok")
-        new  == [k \in Idx(okg) |-> [id |-> gs[okg[k]].id, src |-> gs[okg[k]].mem[Rs[okg[k]].src], val |-> RepValues(Rs[okg[k]])]]
+        new  == Concrete([k \in Idx(okg) |-> [id |-> gs[okg[k]].id, src |-> gs[okg[k]].mem[Rs[okg[k]].src], val |-> RepValues(Rs[okg[k]])]])
         un   == SelectSeq([g \in Idx(gs) |-> g], LAMBDA g : Rs[g].out = "none")
         unId == {gs[un[k]].id : k \in Idx(un)}
         okId == {gs[okg[k]].id : k \in Idx(okg)}
         alt(id) == LET same == {r \in okId : r[1] = id[1]} IN IF same = {} THEN 0 ELSE Min({r[2] : r \in same})
-        e2   == [i \in 1..N |-> IF ~Two /\ IdOf(i, e1) \in unId /\ alt(IdOf(i, e1)) # 0
-                                THEN EnvNumOfIdx(alt(IdOf(i, e1))) ELSE e1[i]]
-    IN /\ grp' = gs /\ genv' = e1
+        e2   == Concrete([i \in 1..N |-> IF ~Two /\ IdOf(i, e1) \in unId /\ alt(IdOf(i, e1)) # 0
+                                         THEN EnvNumOfIdx(alt(IdOf(i, e1))) ELSE e1[i]])
+    IN [e1 |-> e1, gs |-> gs, refused |-> \E g \in Idx(gs) : Rs[g].out = "refused", new |-> new,
+        unrep |-> Concrete([k \in Idx(un) |-> gs[un[k]].id]), e2 |-> e2]
+CreateReps ==
+    \E r \in {CreateResult} :
+       /\ grp' = r.gs /\ genv' = r.e1
        /\ UNCHANGED <<scn, blk, enabled>>
-       /\ act' = [n |-> "Create"]
-       /\ IF \E g \in Idx(gs) : Rs[g].out = "refused"
-          THEN env' = e1 /\ err' = "ValueError" /\ UNCHANGED <<reps, unrep>>
-          ELSE env' = e2 /\ err' = "" /\ reps' = new /\ unrep' = [k \in Idx(un) |-> gs[un[k]].id]
+       /\ act' = [n |-> "Create"] /\ Log
+       /\ IF r.refused
+          THEN env' = r.e1 /\ err' = "ValueError" /\ UNCHANGED <<reps, unrep>>
+          ELSE env' = r.e2 /\ err' = "" /\ reps' = r.new /\ unrep' = r.unrep
 
 Next == \/ \E m \in S.burn : BurnTo(m[1], m[2])
         \/ \E m \in S.heat : HeatTo(m[1], m[2])
